@@ -1,7 +1,7 @@
 //! Child module of `crate::benchmark` (only with `--cfg divan_verif`): builds
 //! `Bencher`s over chosen options and exposes the crate-private results.
 
-use std::num::{NonZeroU64, NonZeroUsize};
+use ::std::num::{NonZeroU64, NonZeroUsize};
 
 use super::*;
 use crate::{
@@ -258,8 +258,8 @@ pub struct OptionsView {
     pub threads: Option<Vec<usize>>,
     /// Indexed by `KnownCounterKind::ALL` (bytes, chars, cycles, items).
     pub counters: [Option<u64>; 4],
-    pub min_time: Option<std::time::Duration>,
-    pub max_time: Option<std::time::Duration>,
+    pub min_time: Option<::std::time::Duration>,
+    pub max_time: Option<::std::time::Duration>,
     pub skip_ext_time: Option<bool>,
     pub ignore: Option<bool>,
     /// The thread count of this particular run.
